@@ -23,19 +23,21 @@ Shapes == {"struct_named", "struct_tuple", "struct_unit", "union", "enum_unit", 
 Levels == {"container", "variant", "field"}
 
 \* item kinds per level.  `form`: "ok" | "badvalue" (rename_all = bogus) | "malformed" (missing `=`, trailing tokens)
-ContainerNames == {"rename_all", "tag", "error", "deny_flag", "deny_fn", "from", "try_from", "validate", "where_predicate", "unknown"}
-VariantNames   == {"rename", "rename_all", "unknown"}
-FieldNames     == {"rename", "default_flag", "default_expr", "skip", "map", "from", "try_from", "missing_field_error", "error", "needs_predicate", "unknown"}
+\* "attr_shape" stands for a whole attribute written without a parenthesised list: `#[deserr]` (form bare) or `#[deserr = ".."]` (form nameval)
+ContainerNames == {"rename_all", "tag", "error", "deny_flag", "deny_fn", "from", "try_from", "validate", "where_predicate", "unknown", "attr_shape"}
+VariantNames   == {"rename", "rename_all", "unknown", "attr_shape"}
+FieldNames     == {"rename", "default_flag", "default_expr", "skip", "map", "from", "try_from", "missing_field_error", "error", "needs_predicate", "unknown", "attr_shape"}
 NamesOf(level) == CASE level = "container" -> ContainerNames [] level = "variant" -> VariantNames [] level = "field" -> FieldNames
 
 \* the single-valued slot an item writes ("" for flags / multi-valued / unknown)
 SlotOf(level, name) ==
     CASE name \in {"deny_flag", "deny_fn"} -> "deny_unknown_fields"
       [] name \in {"default_flag", "default_expr"} -> "default"
-      [] name \in {"skip", "needs_predicate", "where_predicate", "unknown"} -> ""
+      [] name \in {"skip", "needs_predicate", "where_predicate", "unknown", "attr_shape"} -> ""
       [] OTHER -> name
 
 FormsOf(name) == IF name = "rename_all" THEN {"ok", "badvalue", "malformed"} ELSE IF name \in {"skip", "needs_predicate", "deny_flag", "default_flag", "unknown"} THEN {"ok"}
+                 ELSE IF name = "attr_shape" THEN {"bare", "nameval"}
                  ELSE {"ok", "malformed"}
 
 Item(name, form, grp) == [name |-> name, form |-> form, grp |-> grp]
@@ -81,7 +83,7 @@ Reject(c) == verdict' = "reject" /\ cause' = c /\ UNCHANGED <<shape, level, item
 Consume ==
     /\ verdict = "parsing" /\ pos <= Len(queue)
     /\ LET it == queue[pos] slot == SlotOf(level, it.name) IN
-       IF it.form = "malformed" THEN Reject("syntax")
+       IF it.form \in {"malformed", "bare", "nameval"} THEN Reject("syntax")
        ELSE IF it.name = "unknown" THEN Reject("unknown attribute")
        ELSE IF it.form = "badvalue" THEN Reject("invalid rename_all value")
        ELSE IF slot # "" /\ slot \in slots THEN Reject("attribute given twice")
@@ -116,7 +118,7 @@ RECURSIVE ParseFrom(_, _, _, _)
 ParseFrom(lv, q, i, sl) ==
     IF i > Len(q) THEN [v |-> "ok", slots |-> sl]
     ELSE LET it == q[i] slot == SlotOf(lv, it.name) IN
-         IF it.form = "malformed" THEN [v |-> "syntax", slots |-> sl]
+         IF it.form \in {"malformed", "bare", "nameval"} THEN [v |-> "syntax", slots |-> sl]
          ELSE IF it.name = "unknown" THEN [v |-> "unknown attribute", slots |-> sl]
          ELSE IF it.form = "badvalue" THEN [v |-> "invalid rename_all value", slots |-> sl]
          ELSE IF slot # "" /\ slot \in sl THEN [v |-> "attribute given twice", slots |-> sl]
